@@ -16,18 +16,24 @@ resume   Differential on the *same call sequence*.  The iterations are cut into 
          call after an interruption), and in lineage cases the first interruption of the reload branch is a
          data-less checkpoint (save_raw_data=False + from_file(dset=...)) followed later by a with-data
          checkpoint and a clone of that object.  The batch order is outside the property: the harness
-         re-installs the source's numpy generator state after every load/clone (see _set_rng_state).
+         re-installs the source's numpy generator state after every load/clone (see _set_rng_state) --
+         except in SGD-only cases with align_rng False, which keep the library's own re-seeding so that a
+         full-batch result depending on the drawn order is seen.  The gradient route may change from call to
+         call (autograd <-> analytic gradients, descan_shifts_constant switched) under a dataset optimiser.
 skip     History of Ptychography.save calls on ONE object with different skip= / save_raw_data= / store
          arguments.  Every save that is complete w.r.t. the property ("saved together with its data":
          save_raw_data=True, dataset not skipped) is reloaded and must report whatever that very call did
-         not skip -- independent of what earlier calls skipped.
+         not skip -- independent of what earlier calls skipped.  Every save that names something in skip=
+         (str, type, list or tuple) is reloaded and what was named must be absent.
 
 All inputs are pure functions of the JSON case (integer seeds + drawn parameters)."""
 
 from __future__ import annotations
 
+import contextlib
 import copy
 import gc
+import io
 import os
 
 import numpy as np
@@ -691,7 +697,8 @@ def _check_skip(ctx, case):
         L = None
         if names or i in judged:
             with ctx.sut(case, "%s: Ptychography.from_file" % who):
-                L = Q.Ptychography.from_file(path)
+                with contextlib.redirect_stdout(io.StringIO()):  # "Warning: No dataset metadata ..." for data-less files
+                    L = Q.Ptychography.from_file(path)
         if names:
             # what the caller named in skip= (by attribute name or by type, in whatever documented form:
             # str | type | Sequence[str | type]) is not in the file, hence not on the reloaded object
@@ -1062,7 +1069,7 @@ def resume_cases(draw, mode="mixed"):
         c["obj_init"] = c["obj_init"] if c["obj_init"] != "uniform" else "array"
         if draw(st.booleans()):
             # descan TV is only evaluated with a learned dataset; SGD keeps its kink harmless (see _tv_ok)
-            w = draw(st.sampled_from([1e-2, 1e-3, 0.1]))
+            w = draw(st.sampled_from([0.1, 1e-2, 1.0]))
             tgt = c["constraints"] if draw(st.booleans()) else later[0].setdefault("constraints", {})
             tgt.setdefault("dataset", {})["descan_tv_weight"] = w
     elif mode == "mixed" and all(_family(v) == "sgd" for v in plan.values()) and segs[0] > 0 and draw(st.booleans()):
@@ -1091,6 +1098,10 @@ def resume_cases(draw, mode="mixed"):
         # (the poisson loss is not drawn: log(pred + 1e-6) where the predicted intensity is ~0 turns float32
         # FFT rounding into O(1e-4) loss noise between two summation orders; l1 has a kink at pred == target)
         c["loss_type"] = "l2_intensity"
+    if not c.get("align_rng", True):
+        # the intensity loss scales the SGD step with the dose (x1e4 at 1e4 counts): an unstable iteration that
+        # amplifies rounding differences by orders of magnitude; the amplitude loss is dose-invariant
+        c["loss_type"] = "l2_amplitude"
     c.update(
         kind="resume",
         store=draw(st.sampled_from(["zip", "dir"])),
@@ -1119,7 +1130,7 @@ def skip_cases(draw):
     saves = []
     for i in range(ns):
         last = i == ns - 1
-        names = draw(st.lists(st.sampled_from(SKIP_MENU), min_size=0, max_size=2, unique=True))
+        names = draw(st.lists(st.sampled_from(SKIP_MENU), min_size=0 if i == ns - 1 else 1, max_size=2, unique=True))
         raw = draw(st.booleans())
         if last:
             # the last call is always one the property speaks about
